@@ -16,16 +16,18 @@ fn lsp_cycle(t: &str) -> Result<(usize, bool), String> {
     use lsp_types::{DidOpenTextDocumentParams, TextDocumentItem};
     let mut ws = oal_client::lsp::Workspace::default();
     let uri = lsp_types::Url::parse("file:///ws-c04/main.oal").unwrap();
-    let loc = ws
-        .open(DidOpenTextDocumentParams {
-            text_document: TextDocumentItem {
-                uri,
-                language_id: "oal".into(),
-                version: 0,
-                text: t.to_owned(),
-            },
-        })
-        .map_err(|e| e.to_string())?;
+    // the locator of the document is computed here, not taken from what `open` returns
+    let loc = oal_model::locator::Locator::from(uri.clone());
+    if let Err(e) = ws.open(DidOpenTextDocumentParams {
+        text_document: TextDocumentItem {
+            uri,
+            language_id: "oal".into(),
+            version: 0,
+            text: t.to_owned(),
+        },
+    }) {
+        return Err(e.to_string());
+    }
     let ok = match ws.load(&loc) {
         Ok(mods) => ws.eval(&mods).is_ok(),
         Err(_) => false,
